@@ -434,6 +434,7 @@ func genTreeSpec(r *core.Rng, depth int, budget *int) *NodeSpec {
 
 // RunC18 is one simulated run: one case, every stop position, three styles.
 func RunC18(ctx *core.Ctx, r *core.Rng) {
+	Noise(ctx, r)
 	c := &Case{Clause: "C18"}
 	x := r.Intn(100)
 	long := r.Chance(0.0004)
